@@ -393,7 +393,7 @@ pub fn run(ctx: &Ctx) -> ! {
          Non-trivial = sequence with a race (>= 2 members building commits in one epoch) or a stale-detached attempt; distinct by case value.",
     );
     ev.assume("membership is fixed after set-up in this check; membership-changing commits are covered by C01/C07");
-    let spec = RunSpec { shards: 16, cases_per_shard: ctx.tier.pick(150, 2500), cfg_len: CFG_LEN, min_ops: 3, max_ops: ctx.tier.pick(25, 40), max_shrink_iters: 400 };
+    let spec = RunSpec { shards: 16, cases_per_shard: ctx.tier.pick(150, 6000), cfg_len: CFG_LEN, min_ops: 3, max_ops: ctx.tier.pick(25, 40), max_shrink_iters: 400 };
     if let Some(path) = &ctx.replay {
         let v: serde_json::Value = serde_json::from_str(&std::fs::read_to_string(path).unwrap_or_default()).unwrap_or_default();
         let case = Case::from_json(&v["case"]).unwrap_or_else(|| inconclusive(&ev, "no case"));
